@@ -135,3 +135,56 @@ func matchWalkCases(run *Run, r *rand.Rand, n int) {
 		run.Res.Evaluations++
 	}
 }
+
+// blockAddrScenario: blocks whose address is built from labels and attribute values, written with
+// attribute values of every awkward kind (typed nulls, unknown, non-string, interpolated, absent)
+func blockAddrScenario(r *rand.Rand) *Scenario {
+	blocks := map[string]*schema.BlockSchema{}
+	var sb []byte
+	vals := []string{`"x"`, `"y"`, `true ? null : "a"`, "null", "7", `"a${1}"`, "var.x", `upper("a")`, `""`, `"é"`, "[]", `true ? "t" : "f"`}
+	for bi := 0; bi < 3; bi++ {
+		nl := r.Intn(3)
+		labels := make([]*schema.LabelSchema, nl)
+		for i := range labels {
+			labels[i] = &schema.LabelSchema{Name: "l"}
+		}
+		var steps schema.Address
+		steps = append(steps, schema.StaticStep{Name: pick(r, []string{"b", "data"})})
+		for i, n := 0, 1+r.Intn(3); i < n; i++ {
+			switch r.Intn(3) {
+			case 0:
+				steps = append(steps, schema.LabelStep{Index: uint(r.Intn(3))})
+			case 1:
+				steps = append(steps, schema.AttrValueStep{Name: pick(r, []string{"name", "kind"}), IsOptional: r.Intn(2) == 0})
+			default:
+				steps = append(steps, schema.StaticStep{Name: "s"})
+			}
+		}
+		bt := pick(r, []string{"blk", "thing", "item"})
+		blocks[bt] = &schema.BlockSchema{Labels: labels,
+			Address: &schema.BlockAddrSchema{Steps: steps, ScopeId: "x", AsReference: true},
+			Body: &schema.BodySchema{Attributes: map[string]*schema.AttributeSchema{
+				"name": {IsOptional: true, Constraint: schema.LiteralType{Type: cty.String}},
+				"kind": {IsOptional: true, Constraint: schema.AnyExpression{OfType: cty.String}},
+			}}}
+	}
+	for _, bt := range sortedKeys(blocks) {
+		for k, n := 0, 1+r.Intn(3); k < n; k++ {
+			hdr := bt
+			for i := 0; i < len(blocks[bt].Labels); i++ {
+				hdr += " \"" + pick(r, []string{"a", "b", "größe"}) + "\""
+			}
+			sb = append(sb, (hdr + " {\n")...)
+			for _, an := range []string{"name", "kind"} {
+				if r.Intn(4) > 0 {
+					sb = append(sb, ("  " + an + " = " + pick(r, vals) + "\n")...)
+				}
+			}
+			sb = append(sb, "}\n"...)
+		}
+	}
+	w := newWorld()
+	sch := &schema.BodySchema{Blocks: blocks}
+	pd := w.AddPath("root", sch, map[string]string{"main.tf": string(sb)}, nil)
+	return &Scenario{W: w, Main: pd, File: "main.tf", Src: sb, Kind: "blockaddr-focus"}
+}
